@@ -16,7 +16,7 @@ CLASSES = [('plus', '+'), ('minus', '-'), ('inc', '++'), ('dec', '--'), ('dot', 
            ('lt', '<'), ('shl', '<<'), ('le', '<='), ('gt', '>'), ('shr', '>>'), ('ge', '>='), ('assign', '='), ('eq', '=='), ('not', '!'), ('ne', '!='),
            ('slash', '/'), ('star', '*'), ('percent', '%'), ('caret', '^'), ('hash', '#'), ('hashhash', '##'), ('arrow', '->'), ('colon', ':'), ('semi', ';'),
            ('ident', 'x'), ('identL', 'L'), ('identu8', 'u8'), ('identU', 'U'), ('int', '1'), ('float-dot', '1.'), ('dot-float', '.5'), ('exp', '1e'), ('hexexp', '0x1p'),
-           ('longnum', '12L'), ('string', '"s"'), ('char', "'c'"), ('lparen', '('), ('rparen', ')'), ('comma', ','), ('minus-eq', '-='), ('shl-eq', '<<=')]
+           ('longnum', '12L'), ('hex-ending-e', '0xe'), ('hex-ending-E', '0x1E'), ('hex-float-p', '0x1.8p'), ('dec-ending-e-suffix', '2e1f'), ('ident-e', 'e'), ('ident-p', 'p1'), ('string', '"s"'), ('char', "'c'"), ('lparen', '('), ('rparen', ')'), ('comma', ','), ('minus-eq', '-='), ('shl-eq', '<<=')]
 
 
 def pair_case(a, b):
@@ -26,6 +26,13 @@ def pair_case(a, b):
     uses = ['1: PA PB', '2: PA EMPTY PB', '3: ID(%s)PB' % ta if ta not in (',', '(', ')') else '3: PA PB', '4: TWO(PA, PB)', '5: GLUE(PA, PB)', '6: TIGHT(PA, PB)',
             '7: %sPB' % ta if not (ta[-1].isalnum() or ta[-1] == '_' or ta[-1] in '"\'') else '7: %s PB' % ta,
             '8: PA%s' % tb if not (tb[0].isalnum() or tb[0] == '_' or tb[0] in '"\'(') else '8: PA %s' % tb, '9: ID(PA)ID(PB)']
+    raw = ta not in (',', '(', ')', '#', '##') and tb not in (',', '(', ')', '#', '##')
+    wa = ta[-1].isalnum() or ta[-1] in '_"\''
+    wb = tb[0].isalnum() or tb[0] in '_"\'.'
+    if raw:
+        # source tokens (not macro-made) around an empty expansion, and a line break inside the arguments of one invocation
+        uses += ['10: %s%sEMPTY%s%s' % (ta, ' ' if wa else '', ' ' if wb else '', tb), '11: ID(%s\n%s)' % (ta, tb), '12: TWO(%s\n,\n%s)' % (ta, tb), '13: ID(x %s\n%s y)' % (ta, tb),
+                 '14: %s%sID()%s%s' % (ta, ' ' if wa else '', ' ' if wb else '', tb)]
     if ta in ('#', '##') or tb in ('#', '##'):
         lines = [l for l in lines if 'PA' not in l.split(' ')[1:2] or True]
     return '\n'.join(lines + uses) + '\n'
